@@ -8,6 +8,8 @@ def run(ctx):
 
 
 def replay(data):
+    if lexeme.is_token_record(data):
+        return lexeme.replay_token("C04", data)
     if lexeme.is_lexer_record(data):
         return lexeme.replay_lexer("C04", data)
     return drv.replay(data)
